@@ -359,6 +359,15 @@ func runC09(c *eng.Ctx) {
 	// ---- R15.8 (shared) the configuration keys this property's switches hang on reach their fields
 	ruleConfigWiring(c, "R15.8")
 
+	// ---- shared: retention deletes whole segments through segment.Delete, which must be repeatable (a half-failed deletion is
+	// retried by the next clean), and decides by age on the segment's last write time, which the bookkeeping shapes fix
+	c.Rule("R05.7", "K2")
+	ruleSegmentDelete(c)
+	c.Floor(2)
+	c.Rule("R01.8", "K5")
+	ruleLogShapes(c)
+	c.Floor(20)
+
 }
 
 // allCmpExact counts the If conditions in fn that compare a with b and reports whether every one of them uses exactly rel
